@@ -36,6 +36,7 @@ class Env:
                 leg.bunched = bool(leg.is_bunched())
             self.pool.append(leg)
         self.regs = []
+        self.ext = []            # [(ndarray handed to tenpy, copy taken before)]: buffers owned by the caller
 
     def leg(self, t):
         assert t[0] == 'L'
@@ -52,12 +53,38 @@ class Env:
             v = np.array(b['re'], dtype=np.float64)
             if b['im'] is not None:
                 v = v + 1j * np.array(b['im'], dtype=np.float64)
-            data.append(np.ascontiguousarray(v.reshape(shape).astype(dt)))
+            data.append(relayout(np.ascontiguousarray(v.reshape(shape).astype(dt)), spec.get('layout')))
             qd.append(b['q'])
         a._data = data
         a._qdata = np.array(qd, dtype=np.intp).reshape(len(qd), len(legs))
         a._qdata_sorted = False
         return a
+
+
+def relayout(blk, layout):
+    """the same block values in another memory layout: 'F' (Fortran order: what np.transpose of a whole buffer gives),
+    'strided' (a sub-view WITH GAPS of a larger buffer: what take_slice / a[:, i, :] give); None: C-contiguous"""
+    if layout == 'F':
+        return np.asfortranarray(blk)
+    if layout == 'strided':
+        big = np.full([2 * n + 1 for n in blk.shape], -77, dtype=blk.dtype)
+        view = big[tuple(slice(1, 2 * n + 1, 2) for n in blk.shape)]
+        view[...] = blk
+        return view
+    return blk
+
+
+def layout_stats(a):
+    """[number of blocks that are not C-contiguous, number of blocks whose elements do not fill one memory range (gaps)]"""
+    nc = gaps = 0
+    for b in a._data:
+        if isinstance(b, np.ndarray) and b.size > 1:
+            if not b.flags['C_CONTIGUOUS']:
+                nc += 1
+            lo, hi = _byte_bounds(b)
+            if hi - lo != b.size * b.itemsize:
+                gaps += 1
+    return [nc, gaps]
 
 
 def scalar(s):
@@ -231,6 +258,15 @@ def dense_expect(st, R, before):
         return -A
     if op == 'getitem' and all(x == 'all' or isinstance(x, int) or (isinstance(x, list) and x[0] == 's') for x in st['idx']):
         return A[index_arg(st['idx'])]
+    if op == 'take_slice':
+        sl = [slice(None)] * A.ndim
+        for i, ax in zip(st['indices'], idx(a, st['axes'])):
+            sl[ax] = int(i)
+        return A[tuple(sl)]
+    if op == 'from_ndarray_strided':
+        return A
+    if op == 'iproject':
+        return np.compress(np.array(st['mask'], dtype=bool), A, axis=st['_axis_idx'])
     if op in ('transpose', 'itranspose'):
         return np.transpose(A, st.get('_axes_idx'))
     if op in ('conj', 'iconj'):
@@ -247,7 +283,7 @@ def dense_expect(st, R, before):
 # ------------------------------------------------------------------------------------------------
 
 INPLACE = {'iadd', 'isub', 'iadd_prefactor_other', 'iscale', 'iscale_prefactor', 'itranspose', 'iconj',
-           'imake_contiguous', 'idiv', 'iunary', 'setitem'}
+           'imake_contiguous', 'idiv', 'iunary', 'setitem', 'iproject'}
 
 
 def direct_combine(a, groups):
@@ -389,6 +425,17 @@ def run_step(env, st):
         return a.take_slice(st['indices'], st['axes'])
     if op == 'squeeze':
         return a.squeeze() if st.get('axes') is None else a.squeeze(st['axes'])
+    if op == 'iproject':
+        a.iproject(np.array(st['mask'], dtype=bool), st['axis'])
+        return None
+    if op == 'from_ndarray_strided':
+        # the dense form of register a, handed to from_ndarray as a strided sub-view of a larger buffer owned by the caller
+        flat = dense(a)
+        big = np.full([2 * n + 1 for n in flat.shape], 5, dtype=flat.dtype)
+        view = big[tuple(slice(1, 2 * n + 1, 2) for n in flat.shape)]
+        view[...] = flat
+        env.ext.append((big, big.copy()))
+        return npc.Array.from_ndarray(view, a.legs, dtype=a.dtype, qtotal=a.qtotal, labels=a.get_leg_labels())
     raise ValueError('unknown op ' + op)
 
 
@@ -480,8 +527,14 @@ def run_program(case):
             x = env.regs[st[key]] if key in st else None
             if isinstance(x, npc.Array):
                 pre[key] = {'labels': list(x._labels), 'nblocks': len(x._data), 'dtype': str(x.dtype), 'rank': int(x.rank), 'shape': [int(n) for n in x.shape],
-                            'zero_size': any(bool(np.any(np.diff(l.slices) == 0)) for l in x.legs)}
+                            'zero_size': any(bool(np.any(np.diff(l.slices) == 0)) for l in x.legs),
+                            'layout': layout_stats(x)}
         rec['pre'] = pre
+        if st['op'] == 'iproject' and 'a' in pre:
+            try:
+                st['_axis_idx'] = env.regs[st['a']].get_leg_index(st['axis'])
+            except Exception:
+                pass
         if st['op'] in ('transpose', 'itranspose') and st.get('axes') is not None and 'a' in pre:
             try:
                 st['_axes_idx'] = idx(env.regs[st['a']], st['axes'])
@@ -531,6 +584,12 @@ def run_program(case):
                 rec['side_effects'] = side
             fps = now
             rec['shares'] = share_pairs({i: list(r._data) for i, r in live.items()})
+            if env.ext:
+                # buffers owned by the caller (arguments of from_ndarray): changed by tenpy? shared with a live tensor?
+                rec['ext_changed'] = [k for k, (buf, orig) in enumerate(env.ext) if not np.array_equal(buf, orig)]
+                grp = {i: list(r._data) for i, r in live.items()}
+                grp.update({-1 - k: [buf] for k, (buf, orig) in enumerate(env.ext)})
+                rec['ext_shares'] = [pr for pr in share_pairs(grp) if pr[0] < 0]
         except Exception as e:
             rec['alias_err'] = type(e).__name__ + ': ' + str(e)[:120]
         out.append(rec)
